@@ -111,6 +111,12 @@ CHECKS = {
                      "by BER, are encoded in UPER and OER by the generated codecs (ASan build) and compared with the reference encoders; own output must decode back; "
                      "printed PER-/OER-visible ranges must have the reference bounds and extensibility; types with equal effective constraints must produce equal bytes.",
                 note="quick runs a seed-dependent slice of the tree space, thorough all of it; values are sampled around the bounds, not enumerated; values in holes of an extensible root are not judged."),
+    "C13": dict(level="exploration", engine="vdriver", ref="DESIGN.md 4/C13",
+                technique="differential monitor: the same (module, value) script run by drivers generated under different asn1c option sets; event logs (rc, bytes) compared column by column with the default build's (ASan-watched)",
+                text="One module is generated under subsets of {-fwide-types, -fcompound-names, -findirect-choice, -fno-include-deps, -fincludes-quoted, -fno-constraints} "
+                     "and with -no-gen-OER / -no-gen-PER; every build decodes the reference DER, emits DER/UPER/OER/CXER/BXER and decodes the default build's outputs; "
+                     "each column must equal the default build's (its own reading of its outputs is the yardstick for cross-decoding).",
+                note="quick: default + each single option + 2 random subsets for 2 modules; thorough: all 64 subsets for 2 modules, random subsets for 8 more; option sets that do not build are inconclusive (C10)."),
 }
 
 PENDING_REASON = "check not implemented yet (bring-up in progress; see DESIGN.md section 9)"
